@@ -30,7 +30,73 @@ FILE_POOL = ['a', 'A', 'b', 'B b', 'ü', 'a.b', 'Web1', 'strasse', 'straße']
 
 def plan(tier, seed):
     n = 2500 if tier == 'quick' else 60000
-    return [{'seed': seed, 'idx': i} for i in range(n)]
+    return ([{'seed': seed, 'idx': i} for i in range(n)] +
+            [{'kind': 'live-nostop', 'seed': seed, 'idx': i} for i in range(2 if tier == 'quick' else 8)])
+
+
+CASE_TIMEOUT = 120
+
+
+def live_nostop(spec, res):
+    """rm with nostop on a real circusd: the watcher disappears from every view, its workers -- which keep writing to
+    the output the daemon captured for them -- are left alone"""
+    import re
+    import time
+    from vlib import live
+    rnd = rng_for(spec['seed'], 'C15-live', spec['idx'])
+    streams = [('stdout_stream.class = FileStream\nstdout_stream.filename = @DIR@/chatty.out\n'
+                'stderr_stream.class = FileStream\nstderr_stream.filename = @DIR@/chatty.err\n'),
+               'stdout_stream.class = FileStream\nstdout_stream.filename = @DIR@/chatty.out\n',
+               ''][spec['idx'] % 3]
+    out = {'stdout': [[64, 40]] * 400, 'stderr': [[32, 55]] * 300}
+    d = live.Daemon('', strace=False)
+    txt = d.header(check_delay=0.4)
+    txt += ('[watcher:Chatty]\ncmd = %s\nnumprocesses = 2\ngraceful_timeout = 0.5\ncopy_env = True\n%s\n'
+            '[watcher:other]\ncmd = %s\nnumprocesses = 1\ngraceful_timeout = 0.5\ncopy_env = True\n\n'
+            % (live.worker_cmd({'log': '@LOG@', 'tagw': 'chatty', 'out': out}), streams,
+               live.worker_cmd({'log': '@LOG@', 'tagw': 'other'})))
+    d.ini = txt.replace('@DIR@', d.dir).replace('@LOG@', d.logdir)
+    with open(d.ini_path, 'w') as f:
+        f.write(d.ini)
+    try:
+        d.start()
+        if not d.wait_ready(20) or not d.workers_up(3, 20):
+            res.inconclusive.append('live: daemon not ready: ' + d.output()[-200:])
+            return
+        time.sleep(0.5)
+        pids = d.call('list', name='chatty').get('pids') or []
+        stt = {p: live.proc_stat(p) for p in pids}
+        r = d.call('rm', name=rnd.choice(['Chatty', 'CHATTY', 'chatty']), nostop=True, waiting=rnd.random() < .5)
+        res.obs['live_rm_nostop_judged'] += 1
+        if r.get('status') != 'ok' or len(pids) != 2:
+            res.inconclusive.append('live: rm nostop answered %s, %d workers' % (str(r)[:80], len(pids)))
+            return
+        time.sleep(2.5)                       # six periodic checks, dozens of writes per worker
+        views = (d.call('list').get('watchers'), d.call('numwatchers').get('numwatchers'),
+                 sorted(d.call('status').get('statuses', {})))
+        if views != (['other'], 1, ['other']):
+            res.violation('C15/live:views-after-rm-nostop', 'after rm nostop: list %s numwatchers %s status %s' % views)
+        gone = [p for p in pids if not live.alive(p, stt[p][2] if stt[p] else None) or (live.proc_stat(p) or (0, 'Z'))[1] == 'Z']
+        failed = {p: open(os.path.join(d.logdir, '%d.writefail' % p)).read().split() for p in pids
+                  if os.path.exists(os.path.join(d.logdir, '%d.writefail' % p))}
+        if failed and not gone:
+            res.violation('C15/live:rm-nostop-cut-the-workers-output',
+                          'rm with nostop was answered ok; afterwards the writes of the workers it was to leave alone fail '
+                          '(pid: channel, errno, record number) %s -- a program that does not expect EPIPE on its standard '
+                          'output dies of it' % failed)
+        if gone:
+            res.violation('C15/live:rm-nostop-took-the-workers-down',
+                          'rm with nostop was answered ok; 2.5 s later the workers %s of the removed watcher (which write to '
+                          '%s) are gone or zombies' % (gone, 'captured output' if streams else 'the daemon\'s own output'))
+        res.nontrivial(repr(('live-nostop', bool(streams), spec['idx'] % 3)))
+        res.sample = res.sample or {'live': True, 'streams': bool(streams), 'workers_alive_after': len(pids) - len(gone)}
+        for p in pids:
+            try:
+                os.kill(p, 9)
+            except OSError:
+                pass
+    finally:
+        d.cleanup()
 
 
 def recase(rnd, name):
@@ -70,6 +136,11 @@ def write_cfg(path, names):
 
 def run_case(spec):
     res = CaseResult()
+    if spec.get('kind') == 'live-nostop':
+        live_nostop(spec, res)
+        for v in res.viol:
+            v['spec'] = spec
+        return res
     rnd = rng_for(spec['seed'], 'C15', spec['idx'])
     if 'steps' in spec:
         h = spec
